@@ -46,6 +46,8 @@ class A(Adapter):
         g = RandomGenerator(num_rows=c["r"], num_cols=c["c"], num_agents=c["a"])
         if "penalty" in c:
             return Cleaner(generator=g, time_limit=c.get("tl"), penalty_per_timestep=c["penalty"])
+        if c.get("tl") == 2:
+            return Cleaner(g, c["tl"])  # (time_limit = 2 configurations pass the documented leading parameters positionally)
         return Cleaner(generator=g, time_limit=c.get("tl"))
 
     def time_limit(self, env, c):
